@@ -81,6 +81,9 @@ def _validate_valid_identifiers(nodes: dict[str, HyperNode]) -> None:
                     f"How to fix:\n"
                     f"  Use underscores or hyphens instead"
                 )
+        if len(set(node.outputs)) != len(node.outputs):
+            repeated = sorted({o for o in node.outputs if node.outputs.count(o) > 1})
+            raise GraphConfigError(f"Node '{node.name}' lists the output name(s) {repeated} more than once\n\n  -> Every output of a node needs its own name")
         if not isinstance(node, GraphNode):
             if not node.name.isidentifier():
                 raise GraphConfigError(
